@@ -188,10 +188,27 @@ func (dec *Decimal) SetString(s string) error {
 	s = strings.TrimSpace(s)
 
 	split := strings.Split(s, ".")
+	if len(split) > 2 {
+		return fmt.Errorf("failed to parse number %s: more than one decimal point", s)
+	}
 	left := split[0]
 	right := ""
 	if len(split) > 1 {
 		right = split[1]
+	}
+
+	if strings.Trim(right, "0123456789") != "" {
+		return fmt.Errorf("failed to parse number %s: invalid fraction %s", s, right)
+	}
+
+	// Fractional digits beyond the scale cannot be represented. Surplus
+	// zeroes carry no value and are dropped, anything else is rejected
+	// instead of silently changing the value.
+	if len(right) > dec.Scale {
+		if strings.Trim(right[dec.Scale:], "0") != "" {
+			return fmt.Errorf("number %s has more than %d fractional digits", s, dec.Scale)
+		}
+		right = right[:dec.Scale]
 	}
 
 	// Set underlying big.Int structure to the whole number
@@ -205,6 +222,13 @@ func (dec *Decimal) SetString(s string) error {
 		mul := big.NewInt(10)
 		mul.Exp(mul, big.NewInt(int64(dec.Scale-len(right))), nil)
 		i.Mul(i, mul)
+	}
+
+	// The value must fit into the precision of the decimal.
+	maxValue := big.NewInt(10)
+	maxValue.Exp(maxValue, big.NewInt(int64(dec.Precision)), nil)
+	if i.CmpAbs(maxValue) >= 0 {
+		return fmt.Errorf("number %s has more than %d digits", s, dec.Precision)
 	}
 
 	dec.i = i
